@@ -256,6 +256,18 @@ CLAIMED["C16"] = dict(
     technique="term/constant provenance rules and polynomial identities on MIR path terms",
 )
 
+CLAIMED["C10"] = dict(
+    category="other",
+    text=("Three structural clauses: R10.1 ear-cut layout agreement (writer x-then-y per vertex, hole start index = vertices.len()/2 taken before "
+          "the hole is written, dims = 2, reader (v[2i], v[2i+1])), hence triangle corners are polygon vertices; R10.2 decision table of "
+          "MonoPoly::calculate_coordinate_position on integer witnesses incl. vertical bounding segments (boundary only on the segment); R10.3 "
+          "stitch picks as exterior the ring containing ALL others. Tiling / disjointness / Delaunay faces / area conservation / the monotone "
+          "sweep itself are NOT decided."),
+    design_ref="DESIGN.md §4 C10, §5",
+    note="Thin: the geometric guarantees live in earcutr / spade / the sweep. Known finding: MonoPoly vertical-edge point location (known_findings.txt).",
+    technique="writer/reader agreement terms + decision table on witnesses + fold-kind rule",
+)
+
 NOT_YET = "rule set not implemented in this revision of /verif (see DESIGN.md §7 build order); nothing is claimed"
 NA = {}
 
